@@ -19,9 +19,14 @@ and the counter-examples, which are evaluated on the model. For every non-vertic
 is proved at the strength of the property: `proj_segment_nearest_partial` (one segment: point on it, distance
 to it, minimal), `proj_segment_horizontal` (closed form for horizontal segments), `proj_polyline_vertices` and
 `proj_polyline_nearest_partial` (polyline: index of the carrying segment, point on it, distance to it, minimal
-over every point of every segment, the skipped zero-length segments included), `proj_polyline_skipped_partial` (a skipped
+over every point of every segment, the skipped zero-length segments included — and, since the `fix:` commit 563eeba, also
+when NO segment is kept: all the vertices coincide), `proj_polyline_skipped_partial` (a skipped
 segment of non-zero length `< 1e-16` touching a kept one is covered up to `1e-16`), `proj_polyline_skipped_run` /
-`proj_polyline_skipped_run_back` (a run of `k` consecutive skipped segments from a kept end: up to `k · 1e-16`). IEEE rounding is outside these
+`proj_polyline_skipped_run_back` (a run of `k` consecutive skipped segments from a kept end: up to `k · 1e-16`),
+`proj_polyline_all_skipped` (EVERY segment skipped — the case the fix repaired; before it the code raised
+`UnboundLocalError` —: the first vertex is returned with the distance to it, and the polyline is that point up to
+(number of segments) × `1e-16`), `proj_polyline_on` (what any answer guarantees on any polyline), `projPolyligne_vs_old`
+(the repair changes nothing where the old code returned). An empty polyline raises `IndexError`. IEEE rounding is outside these
 statements (the horizontal-segment defect D17 and its near-vertical counterpart exist only in floating point).
 
 Front ends (second half of the file): the argument forms of `proj_segment` / `proj_polyligne` (lists vs numpy
